@@ -3,5 +3,5 @@ CONSTANTS
   W = 64
   Size = 20
   Buffered = TRUE
-INVARIANTS NoLostWakeup WindowSane
+INVARIANTS NoLostWakeup OneInside NoStuckQueue WindowSane
 CONSTRAINT Emit
